@@ -88,6 +88,19 @@ struct RB_ : state_machine_def<RB_> {
 };
 typedef msm::back::state_machine<RB_, msm::back::queue_container_circular> RB;
 #endif
+// bounded drain over events that are NOT handled (no transition / guard rejects): each dispatched event uses up one unit of the budget (C04)
+#if IS_MP11
+struct xev { int n; xev(int n_=0):n(n_){} }; struct aev { int n; aev(int n_=0):n(n_){} };
+struct BD_ : state_machine_def<BD_> {
+  struct S : state<> {};
+  struct RecA { template<class F,class A,class B> void operator()(aev const& e,F&,A&,B&){ g_log += "A" + std::to_string(e.n) + " "; } };
+  struct No { template<class E,class F,class A,class B> bool operator()(E const&,F&,A&,B&){ g_log += "reject "; return false; } };
+  typedef S initial_state;
+  struct transition_table : mpl::vector< Row<S,aev,none,RecA,none>, Row<S,go,none,none,No> > {};
+  template<class F,class Ev> void no_transition(Ev const&,F&,int){ g_log += "NT "; }
+};
+typedef BE<BD_> BD;
+#endif
 // exception_caught submits an event while the failing step already queued another one (C04: "from exception_caught"): both must wait
 // until the step is over and keep their submission order
 #include <stdexcept>
@@ -138,6 +151,12 @@ int main(int argc, char** argv) {
 #if defined(CFG_back)
   { int alive = 0; { RB m; m.alive = &alive; m.get_message_queue().set_capacity(2); m.start(); g_log.clear(); m.process_event(kick()); }
     report("circular-queue.event-under-dispatch-stays-alive", g_log == "tick1 tick2 tick3 " && alive == 0, "C20,C04", "log=[" + g_log + "] live-events-after-destruction=" + std::to_string(alive)); }
+#endif
+#if IS_MP11
+  { BD m; m.start(); m.enqueue_event(xev(1)); m.enqueue_event(aev(2)); m.enqueue_event(go()); m.enqueue_event(aev(3));
+    std::string steps; size_t total = 0;
+    for (int k = 0; k < 4; ++k) { g_log.clear(); size_t n = m.process_event_pool(1); total += n; steps += "[" + g_log + "]"; }
+    report("bounded-drain.one-event-per-step-handled-or-not", steps == "[NT ][A2 ][reject ][A3 ]" && total == 4, "C04", "steps=" + steps + " processed=" + std::to_string(total)); }
 #endif
   { XM m; m.start(); g_log.clear(); m.process_event(boom());
     report("submit.exception_caught", g_log == "action{ } caught{ } note1 note2 ", "C04,C12", "log=[" + g_log + "]"); }
